@@ -2,7 +2,7 @@
 import os
 
 from . import core
-from .rules import stdio, cert, mark, exact, optstore, inval, idx, atomic, own, tokens, idxclass, copy, pair, structfree, buf, div, counter, sentinel, appendinit, verdict, basismap, zerotol, escape, lenclass, djsym, ndet, useb4check, norms, opencheck, shell, esolver, errlost, rescan, certdep, neverset, fmt, defaults, scratch, fullscan, slotleak, floatidx, sensemap, trunc, vtypezero, allockind, intdiv, strscan, localfield, rawidx, argcap, staleptr, condalloc, lpstate, vstattype, alphabet, outleak, fieldleak, lenm1, basisdim, dupmark, rowcopy, normlen, logonly, decacc, nzcount, infmap, lognofail, outunset, dupentry, digitseen, signedidx, strcap
+from .rules import stdio, cert, mark, exact, optstore, inval, idx, atomic, own, tokens, idxclass, copy, pair, structfree, buf, div, counter, sentinel, appendinit, verdict, basismap, zerotol, escape, lenclass, djsym, ndet, useb4check, norms, opencheck, shell, esolver, errlost, rescan, certdep, neverset, fmt, defaults, scratch, fullscan, slotleak, floatidx, sensemap, trunc, vtypezero, allockind, intdiv, strscan, localfield, rawidx, argcap, staleptr, condalloc, lpstate, vstattype, alphabet, outleak, fieldleak, lenm1, basisdim, dupmark, rowcopy, normlen, logonly, decacc, nzcount, infmap, lognofail, outunset, dupentry, digitseen, signedidx, strcap, nulterm
 from .effects import Effects
 
 FIX = os.path.join(os.path.dirname(os.path.abspath(__file__)), "fixtures")
@@ -456,7 +456,7 @@ PROPS = {
                   lambda prog, tier: strscan.run(prog), lambda prog, tier: strscan.run_advance(prog),
                   lambda prog, tier: rawidx.run(prog),
                   lambda prog, tier: idx.run(prog),
-                  lambda prog, tier: lenm1.run(prog), lambda prog, tier: decacc.run(prog), lambda prog, tier: digitseen.run(prog), lambda prog, tier: strcap.run(prog),
+                  lambda prog, tier: lenm1.run(prog), lambda prog, tier: decacc.run(prog), lambda prog, tier: digitseen.run(prog), lambda prog, tier: strcap.run(prog), lambda prog, tier: nulterm.run(prog),
                   lambda prog, tier: fmt.run(prog, scope=lambda f, _r=set(prog.reachable([prog.require_fn(r).key for r in
                                                                                           ("mpq_QSread_prob", "mpq_QSget_prob", "mpq_QSread_basis", "mpq_QSread_and_load_basis")])): f.key in _r, floor=200)],
         "technique": "census and classification of buffer-writing calls in the reader call-graph closures (destination array sizes from the "
@@ -597,7 +597,7 @@ PROPS = {
                   lambda prog, tier: errlost.run(prog, scope_funcs={prog.require_fn("main", unit="esolver/esolver.c").key, prog.require_fn("QSexact_print_sol").key,
                                                                    prog.require_fn("QSexact_solver").key}, floor=3),
                   lambda prog, tier: opencheck.run(prog, scope=lambda f: f.unit.startswith("esolver/") or f.name in ("QSexact_print_sol", "mpq_QSwrite_basis", "mpq_ILLlib_writebasis", "mpq_QSread_prob", "mpq_ILLlib_readbasis")),
-                  lambda prog, tier: esolver.run_statusword(prog), lambda prog, tier: signedidx.run(prog),
+                  lambda prog, tier: esolver.run_statusword(prog), lambda prog, tier: signedidx.run(prog), lambda prog, tier: nulterm.run(prog),
                   lambda prog, tier: esolver.run_nzfilter(prog),
                   lambda prog, tier: shell.run(prog, shared_eff(prog)),
                   lambda prog, tier: exact.run(prog, {"CERT": {"roots": ["QSexact_print_sol"], "closure": False}, "TESTS": {"roots": ["QSexact_print_sol"], "closure": True}}),
@@ -791,7 +791,7 @@ _ADD = {
                          "esolver's main; exit-condition analysis of the print loops",
             "explanation": " (R-FMT) no row / column name is used as a format string; (R-PAIR on esolver) the solution file is closed on every path; "
                            "(R-FULLSCAN) the print loops of QSexact_print_sol are exhaustive; R-NZFILTER follows the arrays into print helpers. (R-SIGNEDIDX) no declared table is subscripted with a plain char (a byte >= 0x80 of a path or an input line would be a negative "
-                           "index): the value is converted to an unsigned type or tested against a lower bound first."},
+                           "index): the value is converted to an unsigned type or tested against a lower bound first. (R-NULTERM) the line buffer that the bzip2 branch of EGioGets fills by raw reads is terminated on every path that returns it."},
     "_TRUNC": {},
     "C20": {"explanation": " The handler variables tested by QSlogv must have process-wide storage duration: a thread-local handler would leave every "
                            "other thread of the host on the stderr branch."},
